@@ -16,7 +16,7 @@ BUILT = {
    "reference attack and pin definitions",
    "explicit-state exploration of the implementation with per-state invariants and from-scratch differential"),
  "C04": ("model_checking", "E1 posgraph + closure", "5.C04",
-   "status() and Game::result() judged on all 3-man positions, on the fixpoint closure of KRK (thorough: KQK, KPK with promotions), on the trees around mate/stalemate-in-one roots and on the special-move families.",
+   "status() and Game::result() judged on all 3-man positions, on the fixpoint closure of KRK (thorough: KQK, KPK with promotions), on the trees around mate/stalemate-in-one roots, on the special-move families, on boxed-king constructions and on the complete set of K+X+P v K+p positions with blocked pawns where the side to move has at most one legal move.",
    "reference (in check, has legal move)",
    "explicit-state exploration incl. reachability fixpoint of small material classes"),
  "C05": ("model_checking", "E1 posgraph + closure (library-driven)", "5.C05",
@@ -24,7 +24,7 @@ BUILT = {
    "reference validity predicate and attack test applied to the library's observable position",
    "explicit-state exploration of the implementation's own move graph with state and transition invariants"),
  "C06": ("model_checking", "E1 posgraph", "5.C06",
-   "FEN text of every explored state checked field by field against an independent writer, round-tripped, and the independent standard writer's text parsed back; builder Display/FromStr round trips incl. overridden side/en-passant variants.",
+   "FEN text of every explored state checked field by field against an independent writer, round-tripped, and the independent standard writer's text parsed back; builder Display/FromStr round trips incl. overridden side/en-passant variants; every rank pattern, the longest placement text, every curated root under every other valid rights set; hash-colliding positions rendered back to back.",
    "independent FEN writer in the reference model",
    "explicit-state exploration of the implementation with a text oracle on every state"),
  "C08": ("model_checking", "E1 posgraph", "5.C08",
@@ -32,7 +32,7 @@ BUILT = {
    "from-scratch construction through the library's own builder as the definition of 'the hash of a position'",
    "explicit-state exploration of the implementation; every arrival judged (path independence)"),
  "C09": ("model_checking", "E1 posgraph + sibling sweep", "5.C09",
-   "All single-component variants of ~700 (thorough ~3000) base positions must hash pairwise differently (exercises every Zobrist key that can occur); every position met in the standard universes, and every two-component variant of dense and state-rich bases, enters a hash -> position collision table.",
+   "All single-component variants of ~700 (thorough ~3000) base positions must hash pairwise differently (exercises every Zobrist key that can occur); every position met in the standard universes, and every two-component variant of dense and state-rich bases, enters a hash -> position collision table; the library's keys are observed and every XOR-dependency of up to 8 keys inside a piece table (pawn tables with the en-passant keys) and of up to 4 keys overall is searched by meet-in-the-middle and, if found, realised as two valid positions whose real hashes are compared.",
    "a true 64-bit collision has probability ~n^2/2^65 for n explored positions",
    "exhaustive sibling enumeration + collision table over explicit-state exploration"),
  "C17": ("model_checking", "E1 posgraph (differential)", "5.C17",
@@ -45,7 +45,7 @@ BUILT = {
    "explicit-state exploration of the implementation with null moves as actions"),
 
  "C07": ("model_checking", "E3 sweep + E1 posgraph", "5.C07",
-   "Complete enumeration of bounded text spaces (field product, 1-edit balls of seed FENs, all short strings) and of all builder states with up to 2 (thorough 3) men, plus crowded-board families and the standard universes: no panic, accepted => necessary conditions, reference-valid => accepted, and every accepted board is exercised (movegen, status, rendering, make_move) in a debug-assertion build where unchecked pushes and indexing are loud.",
+   "Complete enumeration of bounded text spaces (field product, 1-edit balls of seed FENs, all short strings) and of all builder states with up to 2 (thorough 3) men, plus crowded-board families (one kind or two kinds alternating, either side to move), digit runs of 1..300 digits and the standard universes: no panic, accepted => necessary conditions, reference-valid => accepted, and every accepted board is exercised (movegen, status, rendering, make_move) in a debug-assertion build where unchecked pushes and indexing are loud.",
    "reference validity predicate; debug-assertion build turns out-of-bounds access into a panic/abort (a release build would corrupt silently)",
    "exhaustive enumeration of bounded input spaces with a sandwich oracle; accepted inputs driven through the implementation"),
  "C10": ("model_checking", "E2 protocol", "5.C10",
@@ -61,7 +61,7 @@ BUILT = {
    "independent SAN writer/interpreter; tolerant zone T4 for unvalidated markers and castling spelled as a king move",
    "exhaustive enumeration of spellings and grammar-complete texts per position against a reference interpreter"),
  "C13": ("exploration", "E3 sweep", "5.C13",
-   "All 20480 moves and 64 squares round-trip; every string up to length 5 (thorough 6) over a 30-symbol alphabet with multi-byte characters is parsed as move and as square: no panic, and a success renders to a prefix of the input; all 1 112 064 Unicode scalar values substituted / inserted at every position of five texts; texts padded to every length 0..=1100 and 2^k +- 12.",
+   "All 20480 moves and 64 squares round-trip; every string up to length 5 (thorough 6) over a 30-symbol alphabet with multi-byte characters is parsed as move and as square: no panic, and a success renders to a prefix of the input; all 1 112 064 Unicode scalar values substituted / inserted at every position of five texts; texts padded to every length 0..=1100 and 2^k +- 12; every promotion text with every tail of up to 3 symbols; texts wrapped in every pair of ASCII characters.",
    "the alphabet and length bound for the trie; single-character aliasing is covered for every scalar value, lengths up to 2^20",
    "complete enumeration of a finite input domain"),
  "C14": ("model_checking", "E2 protocol", "5.C14",
@@ -69,19 +69,19 @@ BUILT = {
    "reference legal-move set; tolerant zone T5 (moves sharing source and destination with a removed move); remove_move's return value is not judged",
    "exhaustive enumeration of iterator call programs against a reference model"),
  "C15": ("exploration", "E3 sweep (two builds)", "5.C15",
-   "64 squares x every subset of the ray squares x a noise catalogue, rook and bishop, against ray walking; in the default build and (child process) in the +bmi2 build where the pext/pdep variants are judged too.",
+   "64 squares x every subset of the ray squares x a noise catalogue, rook and bishop, against ray walking; in the default build and (child process) in the +bmi2 build where the pext/pdep variants are judged too; call order: every ordered pair of all 107,648 (piece, square, inner subset) lookups back to back in both builds.",
    "noise on non-ray squares is a catalogue, not all subsets; needs a BMI2-capable CPU for the second configuration (otherwise reported as a cap)",
    "complete enumeration of ray occupancies in both build configurations"),
  "C16": ("exploration", "E3 sweep", "5.C16",
-   "Complete enumeration of all geometry tables and step helpers (4096 pairs, 64 squares, 2 colours, all pawn blocker combinations of the relevant squares) against coordinate-arithmetic definitions; Rank/File::from_index on large indices; call-order independence of line / between: all ordered call pairs in process and every possible first call in a fresh child process followed by the complete domain.",
+   "Complete enumeration of all geometry tables and step helpers (4096 pairs, 64 squares, 2 colours, all pawn blocker combinations of the relevant squares) against coordinate-arithmetic definitions; Rank/File::from_index on large indices; call-order independence of line / between: all ordered call pairs in process and every possible first call in a fresh child process followed by the complete domain (also two degenerate first calls, a first call on another thread, and one first call of every other geometry function followed by the module's enumeration).",
    "pawn noise on irrelevant squares is a catalogue (none, all, singles, pairs, ladders, local triples)",
    "complete enumeration of finite domains"),
  "C19": ("model_checking", "E2 protocol", "5.C19",
-   "Every add/replace_if sequence up to depth 4 (thorough: 5 as far as the budget allows) over 60 operations per size, sizes 1-8(16), two value types (further types and sizes to 2^20 at depth 1-2, a panicking predicate at depth 3), replayed on the real table and a slot-array model with all lookups and predicate arguments compared; construction for 1000+ sizes; thorough: tables of 2^31 / 2^32 entries in a child process when memory allows.",
+   "Every add/replace_if sequence up to depth 4 (thorough: 5 as far as the budget allows) over 60 operations per size, sizes 1-8(16), two value types (further types and sizes to 2^20 at depth 1-2, a panicking predicate at depth 3, get as an operation inside the sequences, defaults that equal the all-zero pattern without being it in tables up to 128 MiB), replayed on the real table and a slot-array model with all lookups and predicate arguments compared; construction for 1000+ sizes; thorough: tables of 2^31 / 2^32 entries in a child process when memory allows.",
    "6-hash alphabet per size chosen to collide and not collide; out-of-table access is loud only because of the debug-assertion build",
    "exhaustive enumeration of operation sequences against a reference model"),
  "C20": ("exploration", "E3 sweep", "5.C20",
-   "Set-algebra laws on ~4700 structured values (all <=2-bit boards, complements, rank/file unions, diagonals): unary laws on all, binary laws in all 19 operator forms on all pairs; quarter sweeps, 3- and 4-bit boards, popcount ladders; the whole Iterator protocol (size_hint, count, last, min, max, fold, nth incl. huge indices, skip, step_by, searching adaptors).",
+   "Set-algebra laws on ~4700 structured values (all <=2-bit boards, complements, rank/file unions, diagonals): unary laws on all, binary laws in all 19 operator forms on all pairs; quarter sweeps, 3- and 4-bit boards, popcount ladders; the whole Iterator protocol (size_hint, count, last, min, max, fold, nth incl. huge indices, skip, step_by, searching, consuming and two-iterator adaptors); all ordered pairs of ~2,900 irregular values; agreement of the four forms of `*`.",
    "laws are checked on the structured set, not all 2^64 values; operators are bitwise",
    "complete enumeration of a structured finite value set"),
 }
